@@ -344,6 +344,8 @@ def make_hooks(env, name):
 
 
 def replay(case):
+    if case['kind'] == 'job':
+        return dyn.replay_job(case, _worker)
     if case['kind'] == 'reach':
         return reach.replay_trace(case, make_hooks)
     if case['kind'] == 'step':
